@@ -101,7 +101,7 @@ def run_property(args):
             jobs.append((h.name, p, opts))
     # longest-first is unknown; just run
     fail_fast = args.tier == "quick" and not args.all_violations
-    results = runner.run_jobs(jobs, args.jobs, fail_fast=fail_fast)
+    results = runner.run_jobs(jobs, args.jobs, fail_fast=fail_fast, prop=prop)
     stopped_early = len(results) < len(jobs)
     # ---------------- aggregate
     obligations = 0
@@ -236,6 +236,9 @@ def run_property(args):
         lines.append(f"UNDECIDED property={prop} {u}")
     for e in errors[:20]:
         lines.append(f"CHECKER-ERROR property={prop} {e}")
+    if stopped_early and not nviol:
+        errors.append("the run was cut short although no violation of this property was found (checker defect)")
+        lines.append(f"CHECKER-ERROR property={prop} {errors[-1]}")
     if errors:
         code = 3
     elif nviol:
